@@ -18,10 +18,10 @@ Context {T : Type} `{Num T}.
 Lemma t_ana_ok_true wI wD i j (dz dx zsa xsa vzero : T) : t_ana_ok wI wD i j dz dx zsa xsa vzero = true.
 Proof. reflexivity. Qed.
 Lemma t_anad_ok_true wI i j (dz dx zsa xsa vzero : T) : t_anad_ok wI false i j dz dx zsa xsa vzero = true.
-Proof. unfold t_anad_ok, t_ana_ok. ok_walk fail. Qed.
+Proof. cbv beta delta [t_anad_ok t_ana_ok]. ok_walk fail. Qed.
 Lemma delta_ok_true wI (t1 tauv taue tauev t0c tzc txc dzi dxi dz2i dx2i vzero vref : T) sgntz sgntx :
   delta_ok wI false t1 tauv taue tauev t0c tzc txc dzi dxi dz2i dx2i vzero vref sgntz sgntx = true.
-Proof. unfold delta_ok. ok_walk fail. Qed.
+Proof. cbv beta delta [delta_ok]. ok_walk fail. Qed.
 
 (* ---------- 1. one sweep call ---------- *)
 Theorem sweep_ok_true (tt : arr T) (ttsgn : arr Z) (slow : arr T) dargs (zsi xsi zsa xsa vzero : T)
@@ -33,11 +33,12 @@ Theorem sweep_ok_true (tt : arr T) (ttsgn : arr Z) (slow : arr T) dargs (zsi xsi
   sweep_ok true false tt ttsgn slow dargs zsi xsi zsa xsa vzero i j sgnvz sgnvx sgntz sgntx nz nx grad = true.
 Proof.
   intros Hnz Hnx Htt Hslow Hsgn Di Dj.
+  assert (Bi : 0 <= i - sgntz < nz /\ 0 <= i - sgnvz < nz - 1 /\ 0 <= i < nz) by (unfold dirp in Di; lia).
+  assert (Bj : 0 <= j - sgntx < nx /\ 0 <= j - sgnvx < nx - 1 /\ 0 <= j < nx) by (unfold dirp in Dj; lia).
+  clear Di Dj.
   destruct grad; [ specialize (Hsgn eq_refl) | clear Hsgn ];
-  (destruct Di as [(-> & -> & Hi)|(-> & -> & Hi)]; destruct Dj as [(-> & -> & Hj)|(-> & -> & Hj)];
-   unfold sweep_ok;
-   ok_walk ltac:(first [ apply t_anad_ok_true | apply t_ana_ok_true | apply delta_ok_true | discriminate
-                       | inb_solve ])).
+  cbv beta delta [sweep_ok];
+  ok_walk ltac:(first [ apply t_anad_ok_true | apply t_ana_ok_true | apply delta_ok_true | inb_solve ]).
 Qed.
 
 (* ---------- what one sweep call does to the two arrays ---------- *)
